@@ -73,7 +73,7 @@ STEP_PHASES = {"allocate", "cost", "perform", "record-workflow", "record-organiz
 _CACHE = {}
 
 
-def loop_paths(ctx, heap=None, collections=None, havoc_on_call=True, bind=None, key=None, inline=None, max_depth=2):
+def loop_paths(ctx, heap=None, collections=None, havoc_on_call=True, bind=None, key=None, inline=None, max_depth=2, keep_heap=()):
     """Paths through one iteration: list of dicts {state, exit, trace, phases:[(phase, event)]}."""
     ck = (id(ctx.repo), key)
     if key is not None and ck in _CACHE:
@@ -119,12 +119,14 @@ def loop_paths(ctx, heap=None, collections=None, havoc_on_call=True, bind=None, 
         # set of locals it can start with
         starts, seen = [], set()
         for s0, _ex in pre_outs:
-            key0 = tuple(sorted((k, repr(v)) for k, v in s0.env.items()))
+            kept = {("self", a): s0.heap[("self", a)] for a in keep_heap if ("self", a) in s0.heap}
+            key0 = tuple(sorted((k, repr(v)) for k, v in s0.env.items())) + tuple(sorted((k[1], repr(v)) for k, v in kept.items()))
             if key0 in seen:
                 continue
             seen.add(key0)
             s_new = State()
             s_new.env = dict(s0.env)
+            s_new.heap.update(kept)   # options the prologue stores on the project (asked for by the rule): what the loop finds there
             starts.append(s_new)
         if len(starts) > 8:
             raise AnalysisError(f"simulate() prologue has {len(starts)} distinct normal paths")
